@@ -306,6 +306,24 @@ impl DeclareCommand {
 
             self.apply_attributes_after_update(var, verb)?;
         } else {
+            // A readonly global variable cannot be shadowed by a local of the same name.
+            if create_var_local
+                && context
+                    .shell
+                    .env()
+                    .get(name.as_str())
+                    .is_some_and(|(scope, existing)| {
+                        matches!(scope, EnvironmentScope::Global) && existing.is_readonly()
+                    })
+            {
+                writeln!(
+                    context.stderr(),
+                    "{}: {name}: readonly variable",
+                    context.command_name
+                )?;
+                return Ok(false);
+            }
+
             let unset_type = if self.make_indexed_array.is_some() {
                 ShellValueUnsetType::IndexedArray
             } else if self.make_associative_array.is_some() {
